@@ -1730,6 +1730,61 @@ fn closeinflight_run(cfg: &Cfg, rc: &RCfg, rng: &mut StdRng, events: &mut Vec<Va
     w.teardown();
 }
 
+/// Directed choreography 12: the connector bursts more than the acceptor's receive cap on the
+/// 65535 window of the SYN-ACK, the ACKs shrink the window below what is in flight, and the
+/// connector writes again before the retransmit timer rewinds (window shrink with new data).
+fn shrink_run(cfg: &Cfg, rc: &RCfg, rng: &mut StdRng, events: &mut Vec<Value>) {
+    let mut w = World::new(cfg);
+    let mut eps: Vec<(i64, String)> = Vec::new();
+    events.push(w.listen());
+    if let Some(p) = establish(&mut w, events, &mut eps) {
+        let burst = rng.random_range((cfg.rcap + 1).min(cfg.scap)..=cfg.scap);
+        let data = w.next_bytes(p, "c", burst);
+        if let Some(e) = w.write(p, "c", &data) {
+            events.push(e);
+        }
+        events.push(w.egress());
+        // the data reaches the acceptor (in order, or the first segment only, by the seed)
+        let all = rng.random_range(0..3) != 0;
+        let mut first = true;
+        while !w.wire.is_empty() && (all || first) {
+            events.push(w.deliver(1).unwrap());
+            first = false;
+        }
+        events.push(w.egress());
+        // its ACKs (window = room left, possibly 0) reach the connector
+        while !w.wire.is_empty() {
+            events.push(w.deliver(1).unwrap());
+        }
+        // new data before the rewind
+        let more = rng.random_range(1..=rc.wmax.max(1));
+        let data = w.next_bytes(p, "c", more);
+        if let Some(e) = w.write(p, "c", &data) {
+            events.push(e);
+        }
+        if rng.random_range(0..3) == 0 {
+            if let Some(e) = w.shutdown(p, "c") {
+                events.push(e);
+            }
+        }
+        events.push(w.egress());
+        while !w.wire.is_empty() {
+            events.push(w.deliver(1).unwrap());
+        }
+        for _ in 0..3 {
+            if let Some(e) = w.read(p, "s", rc.rmax.max(1)) {
+                events.push(e);
+            }
+            events.push(w.egress());
+            while !w.wire.is_empty() {
+                events.push(w.deliver(1).unwrap());
+            }
+        }
+    }
+    settle(&mut w, events, &mut eps, rc);
+    w.teardown();
+}
+
 fn random(args: &[String]) {
     let cfg = Cfg::from_args(args);
     let seed = arg_u64(args, "seed", 1);
@@ -1774,6 +1829,7 @@ fn random(args: &[String]) {
             "lomss" => lomss_run(&cfg, &rc, &mut rng, &mut evs),
             "deadhs" => deadhs_run(&cfg, &rc, &mut rng, &mut evs),
             "closeinflight" => closeinflight_run(&cfg, &rc, &mut rng, &mut evs),
+            "shrink" => shrink_run(&cfg, &rc, &mut rng, &mut evs),
             _ => random_run(&cfg, &rc, &mut rng, &mut evs),
         });
         events.extend(evs);
